@@ -121,7 +121,20 @@ fn server_for_cli(id: &'static str, slot: Vec<(&'static str, String)>) -> Server
                 if let Some(x) = put("player") { s.players[0].name = x }
                 if let Some(x) = put("rule-key") { s.rules[0].0 = x }
                 if let Some(x) = put("rule-value") { s.rules[0].1 = x }
-                let t = valve_seed_transport(e, &s);
+                // a full server: 100 players and 150 rules (documents of tens of kilobytes), replies split into 4 and 6
+                let mut big_transport = None;
+                if put("big").is_some() {
+                    s.players = rv::gen_players(&mut Chooser::new(&[]), e.layout(), &[100]);
+                    s.rules = rv::gen_rules(&mut Chooser::new(&[]), &[150]);
+                    s.info.players = 100;
+                    let mut t = valve_seed_transport(e, &s);
+                    let pl = rv::players_body(&s.players).len();
+                    let rl = rv::rules_body(&s.rules).len();
+                    t.players = rv::Framing::Source { cuts: crate::rsm::even_cuts(pl, 4), compressed: false, size_field: true, exact_size: true, id: 0x21 };
+                    t.rules = rv::Framing::Source { cuts: crate::rsm::even_cuts(rl, 6), compressed: false, size_field: true, exact_size: true, id: 0x22 };
+                    big_transport = Some(t);
+                }
+                let t = big_transport.unwrap_or_else(|| valve_seed_transport(e, &s));
                 Box::new(rv::ValveServer::new(s, t)) as Box<dyn Responder>
             })
         }
@@ -187,6 +200,10 @@ fn server_for_cli(id: &'static str, slot: Vec<(&'static str, String)>) -> Server
                 if let Some(x) = put("version") { j.version_name = x }
                 if let Some(x) = put("description") { j.description = Description::Text(x) }
                 if let Some(x) = put("player") { j.sample.as_mut().unwrap()[0].0 = x }
+                // a server icon, as most servers have: a data URL of about 9 kB
+                if put("big").is_some() {
+                    j.favicon = Some(format!("data:image/png;base64,{}", "iVBORw0KGgoAAAANSUhEUgAAAEAAAABA".repeat(280)));
+                }
                 let mut m = McServer::none();
                 m.java = Some(j);
                 Box::new(m) as Box<dyn Responder>
@@ -525,7 +542,7 @@ impl Prop for C19 {
          driven by the reference models. (1) 17 game ids (one or more per protocol family) x 2 output modes x 6 formats x string-class \
          assignments: every server-supplied string slot (name, map, version, keywords, player name, rule key, rule value, \
          description) takes each class of {plain, markup <&>\"', control characters, non-ASCII, surrounding/inner spaces, empty}, \
-         one non-plain slot at a time (quick) / two (thorough). Oracle: exit 0 and exactly one document that parses (json: \
+         one non-plain slot at a time (quick) / two (thorough); plus a large response (Valve: 100 players and 150 rules in split replies; Java: a 9 kB server icon). Oracle: exit 0 and exactly one document that parses (json: \
          serde_json; xml: a strict XML 1.1 well-formedness checker; bson: hex/base64 decode + BSON parse; debug: non-empty) and \
          whose values equal what the library returns in-process for the same server. (2) every id of the definitions table (97, \
          Eco over loopback HTTP) against its family's seed server: 2 of the 12 (mode, format) pairs per id, rotating, in the quick tier; \
@@ -565,6 +582,10 @@ impl Prop for C19 {
                 }
                 for a in &singles {
                     assignments.push(vec![a.clone()]);
+                }
+                // a large response (document well above any internal block size)
+                if matches!(g.id, "teamfortress2" | "minecraftjava") {
+                    assignments.push(vec![("big", "large-response", String::new())]);
                 }
                 // thorough: every two different slots non-plain at once (all class pairs)
                 if tier.is_thorough() && g.id != "killingfloor" {
